@@ -759,6 +759,105 @@ def _capacity_tail(rng, s, cfg, now, L, ud, nfd, nfiles, cap):
     return {"cfg": cfg, "script": s, "flavour": "capacity", "full_drain": False}
 
 
+def gen_rings(rng):
+    """Ring lifecycle on one host: several rings created, used and dropped in every order (the older
+    first, the younger first, with submissions in flight on the others), new rings created
+    afterwards, operations on every live ring, everything drained at the end.  Per ring: every
+    submitted entry completes exactly once, on its own ring, and takes effect."""
+    L = rng.choice([0, 100, 100, 1000])
+    nfiles = rng.choice([1, 2])
+    cfg = {"mode": "direct", "seed": rng.randrange(1 << 30), "lat_ns": L, "cache": None, "nfiles": nfiles}
+    s = [["open", f % nfiles] for f in range(2)]
+    now = 0
+    ud = 100
+    rings = []          # index -> alive
+    outstanding = {}
+
+    def new_ring():
+        s.append(["new", rng.choice([1, 2, 4, 8])])
+        rings.append(True)
+        outstanding[len(rings) - 1] = 0
+
+    def use(r, n=None):
+        nonlocal ud
+        for _ in range(n or rng.choice([1, 1, 2])):
+            ud += 1
+            k = rng.randrange(2)
+            x = rng.random()
+            if x < 0.55:
+                op = ["write", k, rng.choice([0, 1, 2, 4, 6]), [ud % 250 + 1 for _ in range(rng.choice([1, 2, 3]))]]
+            elif x < 0.85:
+                op = ["read", k, 0, 8]
+            else:
+                op = ["fsync", k]
+            s.append(["push", r, op, ud, 0])
+        s.append(["submit", r, 0])
+        outstanding[r] += 2
+
+    def drain(r, full=False):
+        s.extend([["cq_new", r], ["sync", r]] + [["next", r]] * (outstanding[r] + 2 if full else rng.choice([1, 2])))
+
+    for _ in range(rng.choice([2, 2, 3])):
+        new_ring()
+    live = lambda: [i for i, a in enumerate(rings) if a]
+    for _ in range(rng.randrange(3, 8)):
+        for r in live():
+            if rng.random() < 0.7:
+                use(r)
+        x = rng.random()
+        if x < 0.45 and len(live()) >= 2:
+            lv = live()
+            victim = lv[0] if rng.random() < 0.6 else rng.choice(lv)       # mostly the OLDER one
+            rings[victim] = False
+            s.append(["drop_ring", victim])
+            if rng.random() < 0.8:
+                for _ in range(rng.choice([1, 2, 2, 3])):                   # new rings after the drop
+                    new_ring()
+                    if rng.random() < 0.7:
+                        use(len(rings) - 1)
+        elif x < 0.7:
+            now += rng.choice([L // 2, L, L + 1])
+            s.append(["now", now])
+            for r in live():
+                if rng.random() < 0.6:
+                    drain(r)
+        elif x < 0.8:
+            s.append(["readable", rng.choice(live())])
+        if not live():
+            new_ring()
+    now += 2 * L + 10
+    s.append(["now", now])
+    for r in live():
+        s.append(["readable", r])
+        drain(r, full=True)
+    for f in range(nfiles):
+        s.append(["dump", f])
+    return {"cfg": cfg, "script": s, "flavour": "rings", "full_drain": True}
+
+
+def exhaustive_rings():
+    """two or three rings with one write in flight on each; every choice of the ring that is dropped;
+    two new rings afterwards, one of them used; everything drained"""
+    out = []
+    L = 100
+    for n in (2, 3):
+        for victim in range(n):
+            for use_new in (0, 1):
+                s = [["open", 0]]
+                for r in range(n):
+                    s += [["new", 2], ["push", r, ["write", 0, 2 * r, [10 + r, 20 + r]], 50 + r, 0], ["submit", r, 0]]
+                s.append(["drop_ring", victim])
+                s += [["new", 2], ["new", 2]]
+                s += [["push", n + use_new, ["write", 0, 8, [99]], 70, 0], ["submit", n + use_new, 0], ["now", L]]
+                for r in range(n + 2):
+                    if r != victim:
+                        s += [["readable", r], ["cq_new", r], ["sync", r], ["next", r], ["next", r]]
+                s.append(["dump", 0])
+                cfg = {"mode": "direct", "seed": len(out), "lat_ns": L, "cache": None, "nfiles": 1}
+                out.append({"cfg": cfg, "script": s, "flavour": "rings-exhaustive", "full_drain": True})
+    return out
+
+
 def gen_cache(rng):
     """Page cache on, I/O latency min=max well above the 100 ns cache-hit latency: a page is made
     resident (buffered ring read or ring write, plus synchronous accesses, which do not touch the
